@@ -1,6 +1,6 @@
 (* PV.C05.Examples — non-vacuity: concrete non-trivial instances of every hypothesis / guard. *)
 From Coq Require Import QArith ZArith NArith List Bool PArith Arith Permutation.
-From PV Require Import Base.PyData Base.Expr Base.Interp C05.Model C05.Proofs C05.Refuted.
+From PV Require Import Base.PyData Base.Expr Base.Interp C05.Model C05.ToCs C05.Proofs C05.Refuted.
 Import ListNotations.
 Local Open Scope nat_scope.
 
@@ -103,3 +103,32 @@ Example ex_update_op :
   option_map (fun p => (c_name (fst p), c_lag (snd p))) (updated_comp g (OSetLag n_DEPOT (Sym sALAG))) = Some (n_DEPOT, Sym sALAG) /\
   names_unique (comps g) = true /\ length (nodes g) = 5.
 Proof. repeat split; vm_compute; reflexivity. Qed.
+
+(* move_dose_preserves_flows: a move that really relabels two compartments *)
+Example ex_move_dose :
+  let g := build (firstn 9 ex_ops) in
+  snd (apply_op g (OMoveDose n_DEPOT n_CENTRAL None)) = None /\
+  option_map c_name (find_compartment g n_DEPOT) = Some n_DEPOT /\
+  option_map (map c_name) (dosing_compartments (fst (apply_op g (OMoveDose n_DEPOT n_CENTRAL None)))) = Some [n_CENTRAL].
+Proof. repeat split; vm_compute; reflexivity. Qed.
+
+(* odes_roundtrip_partial is not vacuous: 12492 systems, among them a full 3-cycle with outputs and inputs *)
+Example ex_shapes :
+  length all_shapes = 12 + 192 + 3 * 4096 /\
+  In (mkShape 2 [(0, 1); (1, 0)] [1] [0] [0]) all_shapes /\
+  g_default_idv (fun nm => match nm with [67%N] => Sym 100%positive | [66%N] => Sym 101%positive | _ => Num 0 end)
+                (shape_graph (mkShape 2 [(0, 1); (1, 0)] [1] [0] [0])) = true.
+Proof.
+  split; [vm_compute; reflexivity|]. split; [|vm_compute; reflexivity].
+  assert (H : existsb (fun s => Nat.eqb (s_n s) 2 && list_eqb (fun a b => Nat.eqb (fst a) (fst b) && Nat.eqb (snd a) (snd b)) (s_edges s) [(0, 1); (1, 0)]
+                               && list_eqb Nat.eqb (s_outs s) [1] && list_eqb Nat.eqb (s_inps s) [0] && list_eqb Nat.eqb (s_doses s) [0]) all_shapes = true)
+    by (vm_compute; reflexivity).
+  apply existsb_exists in H. destruct H as [s [Hin Hs]].
+  repeat (apply andb_prop in Hs; destruct Hs as [Hs ?]).
+  destruct s as [n e o i d]. cbn [s_n s_edges s_outs s_inps s_doses] in *.
+  apply Nat.eqb_eq in Hs. apply (list_eqb_spec Nat.eqb Nat.eqb_eq) in H, H0, H1. subst.
+  assert (He : e = [(0, 1); (1, 0)]).
+  { revert H2. apply list_eqb_spec. intros [a b] [c d']. cbn [fst snd]. rewrite andb_true_iff, !Nat.eqb_eq.
+    split; [intros [-> ->]; reflexivity | intros E; injection E as -> ->; split; reflexivity]. }
+  subst. exact Hin.
+Qed.
